@@ -915,6 +915,50 @@ def main(ctx):
     object_world(ctx, "several-matchers", list(MK), m_new, MOPS, m_do, m_modules, result_edits=True, depth=ctx.pick(3, 4),
                  check=m_check, must_raise=lambda kind, op: op[0] == "bad", nodedup_depth=ctx.pick(3, 4), state=lambda h: (h.M.get_depth(), getattr(h.M, "__dict__", {}), h.ra2, h.dec2))
 
+    # ------------------------------------------------------------ sequences of ONE-SHOT calls on one HTM object
+    # HTM.match builds what it needs from the second set on every call.  Sequences of calls on one HTM object whose
+    # second sets are hard to tell apart cheaply - the same points in another order (same length, same first and last
+    # point, same coordinate sums), one point moved, the same array object edited in place between the calls - each
+    # result against brute force for ITS second set
+    GRID7 = [(10.0 + 0.125 * i, 20.0 + 0.125 * ((3 * i) % 7)) for i in range(7)]
+
+    def perm(idx):
+        return [GRID7[i] for i in idx]
+    SECONDS = {"base": perm([0, 1, 2, 3, 4, 5, 6]), "swap14": perm([0, 4, 2, 3, 1, 5, 6]), "swap25": perm([0, 1, 5, 3, 4, 2, 6]),
+               "rot-inner": perm([0, 2, 3, 4, 5, 1, 6]), "moved": perm([0, 1, 2, 3, 4, 5]) + [(10.75, 20.875 + 1e-3)], "reversed": perm([6, 5, 4, 3, 2, 1, 0])}
+    FIRST = [(10.125, 20.375), (10.5, 20.625), (10.0, 20.0), (10.75, 20.25)]
+
+    def exec_oneshot(hist, rec):
+        depth0 = hist[0][1]
+        h = htm.HTM(depth0)
+        shared = [np.array([p[0] for p in SECONDS["base"]]), np.array([p[1] for p in SECONDS["base"]])]
+        for k, ev in enumerate(hist[1:]):
+            _, name, how, rad, mm = ev
+            p2 = SECONDS[name]
+            if how == "same-arrays":
+                # the caller re-fills the SAME two array objects
+                shared[0][:] = [p[0] for p in p2]
+                shared[1][:] = [p[1] for p in p2]
+                ra2, dec2 = shared
+            else:
+                ra2, dec2 = np.array([p[0] for p in p2]), np.array([p[1] for p in p2])
+            T = Truth(tuple(FIRST), tuple(p2), tuple([rad] * len(FIRST)))
+            try:
+                res = h.match(np.array([p[0] for p in FIRST]), np.array([p[1] for p in FIRST]), ra2, dec2, rad, maxmatch=mm)
+            except Exception as e:
+                rec.fail(hist, "one-shot match %d raised %s: %s" % (k, type(e).__name__, e))
+                return None
+            bad = verify(res, T, mm)
+            if bad:
+                rec.fail(hist, "one-shot call %d (second set %r, %s) after %r: %s" % (k, name, how, hist[1:k + 1], bad[0][1]))
+                return None
+        key = fingerprint({kk: vv for kk, vv in h.__dict__.items()}) if hasattr(h, "__dict__") else 0
+        menu = tuple(("match", nm, how, rad, mm) for nm in SECONDS for how in ("fresh-arrays", "same-arrays") for (rad, mm) in ((0.2, -1), (0.3, 1)))
+        return (key, len(hist)), menu
+
+    ctx.histories("one-shot-sequences", [(("new", 8),), (("new", 11),)], exec_oneshot, depth=ctx.pick(3, 4), nodedup_depth=ctx.pick(3, 4),
+                  bounds=dict(second_sets=sorted(SECONDS), arrays=["fresh-arrays", "same-arrays"], radii_maxmatch=[(0.2, -1), (0.3, 1)], calls=ctx.pick(2, 3)))
+
     # ------------------------------------------------------------ parameters in other numeric types
     # radius, depth and maxmatch as narrow numpy integers / float32 / 0-d arrays / Python ints (values exactly
     # representable in every type used): the pairs must be those of the call with Python float / int parameters,
